@@ -123,11 +123,14 @@ def _bit_count_model(kind):
             return I.Num(Poly.const(r), 'u32')
         lo, hi = st.ctx.rng(a.term)
         top = bits
+        bot = 0
+        if kind == 'leading_zeros' and lo >= 1 and hi != INF and hi < 2 ** bits:
+            bot, top = bits - int(hi).bit_length(), bits - int(lo).bit_length()
         if kind == 'trailing_zeros' and lo >= 1 and hi != INF:
             top = max(int(hi).bit_length() - 1, 0)
         if kind == 'count_ones' and lo >= 0 and hi != INF:
             top = min(bits, int(hi).bit_length())
-        r = st.ctx.sym_range(st.fresh_name(kind), 0, top, integer=True)
+        r = st.ctx.sym_range(st.fresh_name(kind), bot, top, integer=True)
         st.ctx.sym_deps[r.as_single_atom()] = set(a.term.atoms()) if hasattr(st.ctx, 'sym_deps') else set()
         return I.Num(r, 'u32')
     return m
